@@ -143,6 +143,7 @@ type Store[K comparable, V any] struct {
 	cancel            context.CancelFunc
 	maintenanceTicker *time.Ticker
 	waitChan          chan bool
+	waitMu            sync.Mutex
 }
 
 type StoreOptions[K comparable, V any] struct {
@@ -975,6 +976,11 @@ func (s *Store[K, V]) processSecondary() {
 
 // Wait blocks until the write channel is drained.
 func (s *Store[K, V]) Wait() {
+	// one marker in flight at a time: the wake-up channel is shared, so with
+	// several markers a caller could take the wake-up meant for an earlier
+	// marker and return too early, or never get one when two share a batch
+	s.waitMu.Lock()
+	defer s.waitMu.Unlock()
 	s.writeChan <- WriteBufItem[K, V]{code: WAIT}
 	verifPoint(vpWaitAfterSend)
 	<-s.waitChan
